@@ -1569,6 +1569,12 @@ func init() {
 		p.Until = t + 3*p.TTL + 6*sec
 		p.Tail = 0
 		p.Sched = SchedCfg{YieldProb: 0.8, StallMax: p.TTL + 3*sec, StallSites: []string{"Start.func", "becomeFollower"}, StallUnknown: true}
+		if r.Bool(0.4) {
+			// a heartbeat iteration of the run that is about to be cancelled is held up (it got as far
+			// as its tick within the last half interval before the cancellation) until the new run
+			// leads: whatever it does then, it does to the new run's term
+			p.Sched = SchedCfg{YieldProb: 0.9, StallMax: p.TTL + 3*sec, StallSites: []string{"heartbeat.tick"}, StallFrom: t - p.H/2, StallUntil: t}
+		}
 		return p
 	}
 }
@@ -1798,6 +1804,52 @@ func init() {
 		if p.Until < t+graceOf(p, p.Insts[0])+3*sec {
 			p.Until = t + graceOf(p, p.Insts[0]) + 3*sec
 		}
+		return p
+	}
+}
+
+func init() {
+	// "c09probe": the leader's health probe has no deadline of its own: one of its checks blocks
+	// for longer than a stop call is prepared to wait (Stop's cap is 5s; StopWithContext has the
+	// caller's budget). The instance is stopped while its heartbeat loop is inside that check.
+	// When the probe finally answers, the instance has been stopped for a while: nothing may follow.
+	families["c09probe"] = func(r *Rng) *Plan {
+		p := &Plan{Judge: []string{"C09", "C18", "C08", "C19"}}
+		baseTiming(r, p, []time.Duration{100 * ms, 200 * ms, 500 * ms, 1 * sec, 2 * sec})
+		n := 1 + r.Intn(2)
+		p.Insts = mkInsts(r, n, 1)
+		k := 2 + r.Intn(5) // the tick whose check blocks
+		block := r.Dur(5200*ms, 9*sec)
+		for i := range p.Insts {
+			c := &p.Insts[i]
+			c.V = Pick(r, []time.Duration{0, p.H, 2 * p.H})
+			c.HasHealth, c.HealthRest, c.MaxHealth = true, "h", Pick(r, []int{0, 1, 2})
+			sb := []byte{}
+			for j := 0; j < k; j++ {
+				sb = append(sb, 'h')
+			}
+			sb = append(sb, Pick(r, []byte{'B', 'B', 'b'}))
+			c.Health = string(sb)
+			c.HealthBlock = block
+			p.Actions = append(p.Actions, Action{At: time.Duration(i) * r.Dur(p.H, 3*p.H), Kind: AStart, Inst: i})
+		}
+		p.Store = healthyStore(r, Pick(r, []time.Duration{p.H / 2, p.H / 10}))
+		// the leader (instance 0) is inside the blocking check from about (k+1) intervals after its promotion
+		t := time.Duration(k+1)*p.H + r.Dur(p.H/4, block/2)
+		kind := Pick(r, []string{AStop, AStop, AStopCtx})
+		a := Action{At: t, Kind: kind, Inst: 0}
+		if kind == AStopCtx {
+			a.DeleteKey, a.WaitForDemote = r.Bool(0.5), r.Bool(0.5)
+			a.Timeout = Pick(r, []time.Duration{0, 1 * sec, 3 * sec})
+		}
+		p.Actions = append(p.Actions, a)
+		if r.Bool(0.3) {
+			p.Actions = append(p.Actions, Action{At: t + r.Dur(0, 6*sec), Kind: AStop, Inst: 0})
+		}
+		p.Until = t + block + 3*sec + p.TTL
+		p.Tail = 0
+		statusCalls(r, p)
+		p.Sched = SchedCfg{YieldProb: Pick(r, []float64{0, 0.2, 0.5}), StallMax: 0}
 		return p
 	}
 }
